@@ -558,3 +558,160 @@ def _lin_key(l: Lin):
 
 def _lin_canon(t):
     return ("clin",) + _lin_key(lin(_canon_leafwise(t)))
+
+
+# ---------------------------------------------------------------------------
+# linear integer arithmetic: equivalence of two boolean combinations of linear atoms under a
+# conjunction of linear side conditions (truth table over the atoms; each distinguishing assignment
+# is tested for integer feasibility by Fourier-Motzkin elimination with an integer witness built by
+# back-substitution).  Sound both ways: "equivalent" needs every distinguishing assignment to be
+# infeasible over the rationals; "different" comes with integer values of the leaves.  A system that
+# is feasible over the rationals but for which no integer point is found raises Undecided.
+# ---------------------------------------------------------------------------
+def _fm_solve(ineqs: List[Lin], order: List[tuple]):
+    """ineqs: each `lin <= 0`.  Returns an integer assignment {leaf: int} or None (infeasible); raises Undecided"""
+    import math
+    systems = [list(ineqs)]
+    elim = []
+    cur = list(ineqs)
+    for v in order:
+        lower, upper, rest = [], [], []
+        for q in cur:
+            c = q.coef.get(v, 0)
+            if c == 0:
+                rest.append(q)
+            elif c > 0:
+                upper.append(q)      # c*v + r <= 0  ->  v <= -r/c
+            else:
+                lower.append(q)      # c*v + r <= 0, c<0 -> v >= r/(-c)
+        for lo_ in lower:
+            for up in upper:
+                a, b = -lo_.coef[v], up.coef[v]
+                comb = lo_.scale(b).add(up.scale(a))
+                comb.coef.pop(v, None)
+                rest.append(comb)
+        elim.append((v, lower, upper))
+        # drop trivially true, detect contradiction
+        nxt = []
+        seen = set()
+        for q in rest:
+            if q.is_const():
+                if q.const > 0:
+                    return None
+                continue
+            k = (q.key())
+            if k in seen:
+                continue
+            seen.add(k)
+            nxt.append(q)
+        if len(nxt) > 4000:
+            raise Undecided("Fourier-Motzkin blow-up")
+        cur = nxt
+    for q in cur:
+        if q.is_const() and q.const > 0:
+            return None
+    # back-substitution with integer choices
+    val: Dict[tuple, int] = {}
+
+    def ev(q: Lin, skip):
+        s = q.const
+        for t, c in q.coef.items():
+            if t == skip:
+                continue
+            s += c * val[t]
+        return s
+    for v, lower, upper in reversed(elim):
+        lo_b, hi_b = None, None
+        for q in lower:
+            c = -q.coef[v]
+            b = Fraction(ev(q, v)) / c          # v >= b
+            b = math.ceil(b)
+            lo_b = b if lo_b is None else max(lo_b, b)
+        for q in upper:
+            c = q.coef[v]
+            b = Fraction(-ev(q, v)) / c         # v <= b
+            b = math.floor(b)
+            hi_b = b if hi_b is None else min(hi_b, b)
+        if lo_b is not None and hi_b is not None and lo_b > hi_b:
+            raise Undecided("feasible over the rationals, no integer point found by back-substitution")
+        if lo_b is not None:
+            val[v] = lo_b
+        elif hi_b is not None:
+            val[v] = hi_b
+        else:
+            val[v] = 0
+    return val
+
+
+def linear_equiv(f1, f2, side: Sequence[tuple] = (), dont_care=None, max_atoms=12):
+    """(equivalent?, witness) for two boolean combinations of linear comparison atoms over integer leaves.
+    `side`: comparison atoms assumed to hold.  `dont_care`: a formula; assignments satisfying it are skipped."""
+    forms = [f1, f2] + ([dont_care] if dont_care is not None else [])
+    atoms: List[tuple] = []
+    for f in forms:
+        for a in collect_atoms(f):
+            if a not in atoms:
+                atoms.append(a)
+    ids: List = []
+    cas = {}
+    for a in atoms:
+        i, _ = _atom_id(a)
+        if i not in ids:
+            ids.append(i)
+            ca = canon_atom(a)
+            cas[i] = ca if ca is None or ca[0] != "ne" else ("eq", ca[1])
+    if len(ids) > max_atoms:
+        raise Undecided(f"{len(ids)} atoms")
+    side_ineqs: List[Lin] = []
+    for s_ in side:
+        ca = canon_atom(s_)
+        if ca is None:
+            raise Undecided(f"side condition is not a linear comparison: {show(s_)[:80]}")
+        if ca[0] == "le":
+            side_ineqs.append(ca[1])
+        elif ca[0] == "eq":
+            side_ineqs += [ca[1], ca[1].scale(-1)]
+        else:
+            raise Undecided("disequality as side condition")
+    n_checked = 0
+    for bits in itertools.product([False, True], repeat=len(ids)):
+        val = dict(zip(ids, bits))
+
+        def lv(a):
+            i, neg = _atom_id(a)
+            return (not val[i]) if neg else val[i]
+
+        if dont_care is not None and eval_formula(dont_care, lv):
+            continue
+        v1, v2 = eval_formula(f1, lv), eval_formula(f2, lv)
+        if v1 == v2:
+            continue
+        # integer feasibility of this assignment
+        base = list(side_ineqs)
+        splits = [[]]
+        for i in ids:
+            ca = cas[i]
+            if ca is None:
+                continue            # boolean leaf: free
+            l = ca[1]
+            if ca[0] == "le":
+                base.append(l if val[i] else l.scale(-1).add(Lin(const=1)))
+            else:  # eq
+                if val[i]:
+                    base += [l, l.scale(-1)]
+                else:
+                    splits = [s + [x] for s in splits for x in (l.add(Lin(const=1)), l.scale(-1).add(Lin(const=1)))]
+        for extra in splits:
+            sys_ = base + extra
+            leaves = []
+            for q in sys_:
+                for t in q.coef:
+                    if t not in leaves:
+                        leaves.append(t)
+            leaves.sort(key=show)
+            n_checked += 1
+            w = _fm_solve(sys_, leaves)
+            if w is not None:
+                return False, {"values": {show(k)[:60]: v for k, v in w.items()},
+                               "first": v1, "second": v2}
+    return True, {"distinguishing assignments refuted": n_checked}
